@@ -255,12 +255,24 @@ class MotionMonitor(Monitor):
 
     exhaustive = None       # (quick maxlen, thorough maxlen): enumerate the retraction automaton's event sequences completely
     exhaustive_what = ("every event sequence over {retract, recover, print inside/outside, travel inside/outside} with matched "
-                       "cycles up to the length bound (quick 5, thorough 7-8), E-only and firmware retraction, one region")
+                       "cycles up to the length bound (quick 5, thorough 7), E-only and firmware retraction, one region")
+
+    def ex_index(self, k, tier):
+        """Index into the exhaustive sub-space for case k of this shard, or None (quick: every 2nd case, thorough: 3 of 4)."""
+        if tier == "quick":
+            if k % 2:
+                return None
+            j = k // 2
+        else:
+            if k % 4 == 0:
+                return None
+            j = k - k // 4 - 1
+        return j * getattr(self, "nshards", 1) + getattr(self, "shard", 0)
 
     def gen_case(self, rnd, tier, k):
-        if self.exhaustive and k % 2 == 0:
+        e = self.ex_index(k, tier) if self.exhaustive else None
+        if e is not None:
             maxlen = self.exhaustive[0 if tier == "quick" else 1]
-            e = (k // 2) * getattr(self, "nshards", 1) + getattr(self, "shard", 0)
             case = exhaustive_case(e // 2, maxlen, firmware=bool(e % 2), variant=1)
             if case is not None:
                 case["exhaustive_of"] = 2 * exhaustive_total(maxlen)
@@ -326,7 +338,7 @@ K3_WITNESS_C03 = dict(cls="witness-K3", settings={}, regions=[["rect", 360, 325,
 
 class C01(MotionMonitor):
     prop = "C01"
-    quick_cases = 2500
+    quick_cases = 2700
     exhaustive = (5, 7)
     rule = ("random programs (abstract tool path, then encoded) through the real handleGcode/handleAtCommand; the emitted "
             "stream is executed on reference printer A, the unfiltered one on B; a case is non-trivial when at least one "
@@ -403,7 +415,7 @@ class ExtrusionMonitor(MotionMonitor):
 class C04(ExtrusionMonitor):
     prop = "C04"
     quick_cases = 3000
-    exhaustive = (5, 8)
+    exhaustive = (5, 7)
     rule = ("programs in absolute extrusion mode with matched equal-length retract/recover cycles (E-only or firmware), G92 E "
             "anywhere, mm/inch; oracle compares E and pushed filament of printer A vs B; non-trivial = an episode closed "
             "while a recovery was owed (hooked lastRetraction.recoverExcluded at the closing step)")
@@ -430,7 +442,7 @@ class C04(ExtrusionMonitor):
 class C05(ExtrusionMonitor):
     prop = "C05"
     quick_cases = 3000
-    exhaustive = (5, 8)
+    exhaustive = (5, 7)
     rule = ("as C04 with long alternations of enter/retract/recover/exit; oracle compares the physical retraction depth (high-water "
             "mark minus position) of A and B and G10/G11 parity/parameters; non-trivial = a retraction executed inside an episode "
             "and an owed recovery injected outside (a forwarded command preceded by generated commands)")
@@ -494,9 +506,9 @@ class C14(MotionMonitor):
                        "enable @-command} with matched cycles up to length 4 (quick) / 6 (thorough), E-only and firmware retraction")
 
     def gen_case(self, rnd, tier, k):
-        if k % 2 == 0:
+        e = self.ex_index(k, tier)
+        if e is not None:
             maxlen = 4 if tier == "quick" else 6
-            e = (k // 2) * getattr(self, "nshards", 1) + getattr(self, "shard", 0)
             case = exhaustive_case(e // 2, maxlen, firmware=bool(e % 2), variant=1, with_at=True)
             if case is not None:
                 case["exhaustive_of"] = 2 * exhaustive_total(maxlen, True)
